@@ -15,13 +15,16 @@ RULE = ("exhaustive: every script of length <= L (L=4 quick, 6 thorough) over {r
         "CONNACK refused(5), accepted+lost after 0, accepted+lost after 3, CONNACK rc1 (downgrade)} x (min,max) in "
         "{(1,1),(1,4),(2,5),(3,100)} x retry_first on/off; plus every placement of disconnect()/stop (each callback "
         "of each attempt, every sleep chunk of every wait, on_message while connected) on all scripts up to length 3, "
-        "reconnect_on_failure off, and random scripts up to length 14 with random delays and actions. "
+        "reconnect_on_failure off, every script <= 3 (5 thorough) over the ways an accepted connection is lost (EOF, recv error, broker silent = "
+        "keepalive expiry, failing PINGREQ write, MQTT 5 server DISCONNECT) mixed with refused/closed, actions on those, "
+        "and random scripts up to length 14 with random delays, losses and actions. "
         "distinct = (config, script, action); non-trivial = at least one retry or an action/finality event")
 EXTRACT_TAGS = ["timing"]
 GENERATED_ITEMS = ["_reconnect_wait"]
 ASSUMPTIONS = [
     "virtual time: time_func, time.sleep and select.select of paho.mqtt.client are replaced; min/max delays are integers so the float clock is exact",
-    "the broker reacts at the instant of the attempt (CONNACK / EOF readable at once); keepalive = 0; client id non-empty; MQTT 3.1.1 client (one downgrade possible)",
+    "the broker reacts at the instant of the attempt (CONNACK / EOF readable at once); client id non-empty; MQTT 3.1.1 client (one downgrade possible), or MQTT 5 client for scripts with a server DISCONNECT (then no CONNACK refusals in the script)",
+    "keepalive K > 0 only where the script loses a connection by silence (expiry at 2K) or by a failing PINGREQ write (at K); other losses happen sooner than K",
     "the application acts at most once (disconnect() or _thread_terminate := True), from a callback or during a sleep chunk of _reconnect_wait",
     "disconnect() from another thread while connected (outside any callback) is not modelled",
 ]
@@ -49,12 +52,14 @@ class SSock(impl.FakeSock):
             _, d = self.events.popleft()
             if d is None:
                 self.eof = True
+            elif d == "ERR":
+                self.recv_error = True
             else:
                 self.feed(d)
 
     def readable(self):
         self.deliver()
-        return bool(self.inbuf) or self.eof
+        return bool(self.inbuf) or self.eof or self.recv_error
 
     def next_event(self):
         return self.events[0][0] if self.events else None
@@ -79,15 +84,17 @@ def fake_select(r, w, x, timeout=None):
 
 
 def real_run(case):
-    """case: {min,max,retry_first,rof,act:None|[attempt,place,arg,kind],script:[[code,arg],...]}
+    """case: {min,max,retry_first,rof,K,v5,act:None|[attempt,place,arg,kind],script:[[code,arg],...]}
     places 0 on_connect_fail 1 on_connect 2 on_disconnect 3 on_message(arg after CONNACK) 4 wait chunk(arg)
     kinds 0 disconnect() 1 _thread_terminate=True; outcomes 0 refused 1 closed 2 CONNACK rc(arg) 3 accepted,
-    lost after arg 4 CONNACK rc 1."""
+    EOF after arg 4 CONNACK rc 1 5 accepted, recv error after arg 6 accepted, broker silent (keepalive expiry at 2K)
+    7 accepted, the first write after CONNECT (the PINGREQ at K) fails 8 accepted, server DISCONNECT after arg (MQTT 5)."""
     script, act = case["script"], case.get("act")
     C.t = T0
-    c = impl.make_client(reconnect_on_failure=bool(case["rof"]), api=1)
+    K, v5 = case.get("K", 0), bool(case.get("v5", 0))
+    c = impl.make_client(reconnect_on_failure=bool(case["rof"]), api=1, protocol=mqtt.MQTTv5 if v5 else mqtt.MQTTv311)
     c.reconnect_delay_set(case["min"], case["max"])
-    c.connect_async("h", keepalive=0)
+    c.connect_async("h", keepalive=K)
     tr = {"attempts": [], "waits": [], "cbs": [], "acts": [], "order": []}
     st = {"n": -1, "chunk": 0, "done": False, "in_connack": False}
 
@@ -102,9 +109,9 @@ def real_run(case):
                 c._thread_terminate = True
 
     def cb(place, rc, arg=None):
-        rc = int(rc)
+        rc = 0 if rc is None else int(getattr(rc, "value", rc))
         tr["cbs"].append([C.t - T0, place, rc])
-        if place == 0 or (place == 2 and rc != 0):
+        if place == 0 or (place == 2 and (rc != 0 or not st["done"])):
             tr["order"].append(("fail", C.t - T0))
         elif place == 1 and rc == 0:
             tr["order"].append(("accepted", C.t - T0))
@@ -130,16 +137,24 @@ def real_run(case):
         elif code == 4:
             s.events.append((C.t, impl.connack(1)))
         else:
-            s.events.append((C.t, impl.connack(0)))
-            if act and act[0] == n and act[1] == 3 and 0 <= act[2] < arg:
-                s.events.append((C.t + act[2], impl.publish_pkt(b"t", b"x")))
-            s.events.append((C.t + arg, None))
+            s.events.append((C.t, impl.connack(0, v5=v5)))
+            lost = {3: arg, 5: arg, 6: 2 * max(1, K), 7: max(1, K), 8: arg}[code]
+            if act and act[0] == n and act[1] == 3 and 0 <= act[2] < lost:
+                s.events.append((C.t + act[2], impl.publish_pkt(b"t", b"x", v5=v5)))
+            if code == 3:
+                s.events.append((C.t + arg, None))
+            elif code == 5:
+                s.events.append((C.t + arg, "ERR"))
+            elif code == 7:
+                s.send_plan.extend([10 ** 9, -1])          # CONNECT goes through, the next write fails
+            elif code == 8:
+                s.events.append((C.t + arg, b"\xe0\x00"))
         return s
 
     c._create_socket = create
     c.on_connect_fail = lambda cl, ud: cb(0, 0)
-    c.on_connect = lambda cl, ud, fl, rc: cb(1, rc)
-    c.on_disconnect = lambda cl, ud, rc: cb(2, rc)
+    c.on_connect = lambda cl, ud, fl, rc, *props: cb(1, rc)
+    c.on_disconnect = lambda cl, ud, rc, *props: cb(2, rc)
     c.on_message = lambda cl, ud, m: cb(3, 0)
     orig_connack = c._handle_connack
     orig_wait = c._reconnect_wait
@@ -183,10 +198,11 @@ def real_run(case):
 
 def encode(case):
     a = case.get("act")
-    out = [int(T0), case["min"], case["max"], int(case["retry_first"]), int(case["rof"])]
+    out = [int(T0), case["min"], case["max"], int(case["retry_first"]), int(case["rof"]),
+           int(case.get("K", 0)), int(case.get("v5", 0))]
     out += [a[0], a[1], a[2], a[3]] if a else [-1, 0, 0, 0]
     for code, arg in case["script"]:
-        out += [code, arg] if code in (2, 3) else [code]
+        out += [code, arg] if code in (2, 3, 5, 8) else [code]
     return out
 
 
@@ -279,6 +295,8 @@ def oracle(case, tr):
 
 
 SYMS = [[0, 0], [1, 0], [2, 5], [3, 0], [3, 3], [4, 0]]
+LOSS_SYMS = [[0, 0], [1, 0], [3, 0], [5, 3], [6, 0], [7, 0]]
+LOSS_SYMS_V5 = [[0, 0], [1, 0], [3, 3], [6, 0], [8, 2]]
 PAIRS = [(1, 1), (1, 4), (2, 5), (3, 100)]
 
 
@@ -288,7 +306,7 @@ def places_for(script):
     for k, (code, arg) in enumerate(script + [[0, 0]]):
         out += [[k, 0, 0], [k, 1, 0], [k, 2, 0]]
         out += [[k, 4, j] for j in (1, 2, 3, 5)]
-        if code == 3:
+        if code in (3, 5, 6, 7, 8):
             out += [[k, 3, m] for m in (0, 1, 2)]
     return out
 
@@ -301,6 +319,23 @@ def gen_cases(ctx):
         for (mn, mx) in (PAIRS if len(sc) <= 4 else PAIRS[1:3]):
             for rf in (0, 1):
                 yield {"min": mn, "max": mx, "retry_first": rf, "rof": 1, "act": None, "script": sc}, "exhaustive"
+    # the ways an accepted connection is lost (keepalive 5): MQTT 3.1.1 and MQTT 5 families
+    Ll = 3 if ctx.quick else 5
+    for syms, v5 in ((LOSS_SYMS, 0), (LOSS_SYMS_V5, 1)):
+        for n in range(1, Ll + 1):
+            for sc in itertools.product(syms, repeat=n):
+                if not any(o[0] in (5, 6, 7, 8) for o in sc):
+                    continue
+                for (mn, mx) in ((1, 4), (2, 60)):
+                    for rf in (0, 1):
+                        yield {"min": mn, "max": mx, "retry_first": rf, "rof": 1, "K": 5, "v5": v5, "act": None,
+                               "script": [list(o) for o in sc]}, "exhaustive-loss"
+        for sc in itertools.product(syms, repeat=2):
+            sc = [list(o) for o in sc]
+            for a in places_for(sc):
+                mn, mx = rng.choice(PAIRS)
+                yield {"min": mn, "max": mx, "retry_first": rng.randrange(2), "rof": rng.choice([1, 1, 0]), "K": 5, "v5": v5,
+                       "act": a + [rng.randrange(2)], "script": sc}, "action-loss"
     small = [list(s) for n in range(1, 4) for s in itertools.product(SYMS, repeat=n)]
     for sc in small:
         pls = places_for(sc)
@@ -316,16 +351,19 @@ def gen_cases(ctx):
     for _ in range(ctx.n(1500, 30000)):
         n = rng.randrange(1, 15)
         sc = []
+        v5 = 1 if rng.random() < 0.25 else 0
+        K = rng.choice([5, 50])
         for _ in range(n):
-            code = rng.choice([0, 0, 1, 2, 3, 3, 4])
-            sc.append([code, rng.choice([2, 3, 4, 5]) if code == 2 else (rng.choice([0, 1, 2, 7, 30]) if code == 3 else 0)])
+            code = rng.choice([0, 0, 1, 3, 3, 6, 8] if v5 else [0, 0, 1, 2, 3, 3, 4, 5, 6, 7])
+            sc.append([code, rng.choice([2, 3, 4, 5]) if code == 2 else
+                       (rng.choice([0, 1, 2, 4] + ([7, 30] if K == 50 else [])) if code in (3, 5, 8) else 0)])
         mn = rng.choice([1, 1, 2, 3, 7])
         mx = mn + rng.choice([0, 1, 3, 10, 120])
         act = None
         if rng.random() < 0.5:
             act = rng.choice(places_for(sc)) + [rng.randrange(2)]
         yield {"min": mn, "max": mx, "retry_first": rng.randrange(2), "rof": 0 if rng.random() < 0.15 else 1,
-               "act": act, "script": sc}, "random"
+               "K": K, "v5": v5, "act": act, "script": sc}, "random"
 
 
 def corpus_cases():
